@@ -234,6 +234,15 @@ struct Stability {
     edit_budget_ms: u64,
 }
 
+fn shared_formula_tag(b: &Spreadsheet, tags: &mut Vec<String>) {
+    for ws in b.get_sheet_collection_no_check() {
+        if ws.get_cell_collection().iter().any(|c| c.get_formula_shared_index().is_some()) {
+            tags.push("has-shared-formula".into());
+            return;
+        }
+    }
+}
+
 fn content_tags(model: &Value, tags: &mut Vec<String>) {
     let s = model.to_string();
     if s.contains("\\\\r") {
@@ -268,6 +277,7 @@ impl Space for Stability {
         let defaults = calibrate_defaults(&m0, src.light);
         let d0 = full_norm(&m0, &defaults);
         content_tags(&d0, &mut tags);
+        shared_formula_tag(&m0, &mut tags);
         // generations
         let mut dumps = vec![];
         let t_gen = std::time::Instant::now();
@@ -433,6 +443,11 @@ pub fn space(tier: Tier, id: &str) -> Option<Box<dyn Space>> {
                 if tier == Tier::Quick && size > 60_000 {
                     continue;
                 }
+                // the full dumps of the three largest corpus files (0.8 - 1.2 MB, several 10^5 cells) need more
+                // than the workers' address-space cap per generation; they are covered by C02 and C03 only
+                if size > 600_000 {
+                    continue;
+                }
                 let name = f.rsplit('/').next().unwrap_or("").to_string();
                 for light in [false, true] {
                     if light && tier == Tier::Quick {
@@ -488,7 +503,7 @@ fn run(ctx: &Ctx) -> i32 {
             level: "model_checking",
             rule: "histories over {S = save+reload, E(c,k) = single-cell edit} from every initial state (corpus file / generated lattice workbook / channel workbook): S, SS, SSS; E(c,k) S for every cell c (capped per sheet, cap stated) + the last cell + one fresh position and k in {set text, set number, set blank, remove}; save twice. Oracle: full normalised dump gen1==gen2==gen3, orig==gen1, dump(E S) differs from dump(S) only in cell c and its row/column entry, two saves of one workbook have the same parts and part contents. states = distinct generation dumps, transitions = save/reload steps executed (each on the real library)".into(),
             alphabets: json!({"edit_kinds": EDIT_KINDS, "corpus_files": corpus_files().len(), "lattice_subsets": lattice_subsets(ctx.tier).len(), "channels": CHANNELS.len(), "specials": SPECIALS.len()}),
-            bounds: json!({"generations": 3, "edit_time_budget_per_source_ms": if ctx.tier == Tier::Quick {1500} else {60000}, "edit_cap_per_sheet": if ctx.tier == Tier::Quick {"2 (corpus), 64 (generated)"} else {"64"}, "corpus": if ctx.tier == Tier::Quick {"files <= 60 kB, standard writer"} else {"all files, both writers"},
+            bounds: json!({"generations": 3, "edit_time_budget_per_source_ms": if ctx.tier == Tier::Quick {1500} else {60000}, "edit_cap_per_sheet": if ctx.tier == Tier::Quick {"2 (corpus), 64 (generated)"} else {"64"}, "corpus": if ctx.tier == Tier::Quick {"files <= 60 kB, standard writer"} else {"files <= 600 kB (3 larger files excluded: their full dumps exceed the worker memory cap), both writers"},
                 "normalised_away_on_both_sides": ["a style component that was never set == the workbook default component (calibrated per workbook)", "defined names compared by scope, not by holder object", "blank cells without formatting/hyperlink", "row entries carrying nothing", "column entries carrying only the default width", "docProps parts and sharedStrings count attributes in the save-twice comparison"]}),
             exhaustive: true,
             caps_hit: vec![],
